@@ -35,7 +35,7 @@ worktree, touching the library/apps sources — not the tests, not the build sys
 1. **breaks the property** above for some inputs / states / schedules / histories,
 2. still **compiles** and still **passes the existing test suite** (build with
    `cmake -G Ninja -S {root}/repo -B {root}/build -DCMAKE_BUILD_TYPE=RelWithDebInfo -DBUILD_TESTING=ON -DCPM_USE_LOCAL_PACKAGES=ON -DCMAKE_CXX_FLAGS=-Wno-error && cmake --build {root}/build -j8`
-   and run `ctest --test-dir {root}/build -j8 --timeout 900` — all tests that pass without your change must pass with it;
+   and run `OMP_NUM_THREADS=2 OPENBLAS_NUM_THREADS=1 ctest --test-dir {root}/build -j6 --timeout 1800` — all tests that pass without your change must pass with it;
    the full suite has ~554 tests and takes several minutes, so first run the subset that touches the code you changed
    (`ctest -R <regex>`), and run the full suite once per final patch),
 3. is **realistic** — the kind of slip a maintainer could make in a refactor or "optimisation" and a reviewer could miss
